@@ -2,6 +2,8 @@ import SqlgrepModel.Lemmas.NoPanic
 import SqlgrepModel.Lemmas.NoPanicEngine
 import SqlgrepModel.Props.C03
 import SqlgrepModel.Lemmas.RowIndex
+import SqlgrepModel.Lemmas.NoSkip
+import SqlgrepModel.Lemmas.NoSkipEngine
 /-
 C09 — execution is total: results or an error message, never a crash, never a silently wrapped number.
 
@@ -15,11 +17,21 @@ construction: they are regression obligations, not evidence about the code. The 
 panic there is the harness (every case under catch_unwind with overflow checks on). The content of the first part is
 `int_arith_in_range` / `negate_exact` (no silent wrap-around: an INT result is the exact result, within 64 bits),
 `div_by_zero_is_error`, `subscript_total`. All model functions are total (structural recursion: termination is checked
-by Lean). `oracleMissing` is answered only for external facts a case did not ship (a literal / regex / case mapping
-of a computed text, `now()`); leap-second arithmetic and STDDEV of INTERVAL are modelled (the one `expect` chrono's
+by Lean). `oracleMissing` is answered only for external facts a case did not ship (a regex verdict / case mapping
+of a computed text) and for `now()` — exactly the four sites of `function_call_skipped_iff` (third part of this file);
+leap-second arithmetic and STDDEV of INTERVAL are modelled (the one `expect` chrono's
 `duration_trunc` contains is proved unreachable: `Lemmas/FuncLeap.lean` `dateTrunc_shift_in_range`).
 What no executable model exhibits (panics inside regex / serde_json / chrono, stack exhaustion, allocation
 failure, hangs, non-UTC zones) is covered by the harness runs only (see DESIGN.md section 13).
+
+Third part ("never skipped"): a run of the model can also end `skipped` — the model's way of saying "I was not given an
+external fact I need", which the check counts and does not compare. `function_call_skipped_iff` says exactly where that
+happens (four sites of `callFunction`, nowhere else in evaluator, engines and executor), `run_not_skipped` /
+`run_trichotomy` say when it does not: for a statement that calls none of `upper`, `lower`, `regexp_matches`, `now`
+(`Stmt.factFree`, decidable) a batch run ends with its records and `error = none`, or with the records printed so far and
+`error = some kind` — never `panicked`, never `skipped`, for all oracle tables. `run_ends_one_way`: no run sets two of the
+three failure fields. The end-to-end versions (`Pipeline.runLowered`, `Pipeline.runText`) and the composition of the
+`row[index]` lemmas over the end-to-end model are in `Props/C09Pipeline.lean`.
 -/
 namespace Sqlgrep.Props.C09
 open Sqlgrep
@@ -99,11 +111,13 @@ example : mkInterval 9999999999999999 0 0 = none := by rfl
 /-! ### statement level: a whole batch run never panics -/
 
 open Sqlgrep.NoPanicEngine in
-/-- **C09 at the level of a whole run.** For every statement (SELECT or aggregate, with WHERE / GROUP BY / HAVING /
-DISTINCT / LIMIT / JOIN), every table, every joined file, every list of input files with any rows, every
-interrupt point and all oracle tables, a batch run never ends in a panic: it ends with records, with a reported error, or —
-only when the case did not ship an external fact the run needed (a regex verdict, a Unicode case mapping; since
-`Model/DecFloat.lean` no longer a number text) — as `skipped`, which the check counts and never compares.
+/-- **C09 at the level of a whole run: `panicked = false`.** For every statement (SELECT or aggregate, with WHERE /
+GROUP BY / HAVING / DISTINCT / LIMIT / JOIN), every table, every joined file, every list of input files with any rows,
+every interrupt point and all oracle tables, a batch run never takes the panic outcome. This is ALL the theorem says: the
+run may still end `skipped := some w` (the model was not given an external fact it needed — the check counts such a case
+and does not compare it). When that happens, and that for statements without `upper` / `lower` / `regexp_matches` / `now`
+it never happens, so that the run ends with records or a reported error, is `function_call_skipped_iff`,
+`run_not_skipped` and `run_trichotomy` below.
 The two indexing sites of `execute_result` (`group_key_mapping[&hash]`, `group_key.0[index]`) are shown
 unreachable through the invariant `Inv` (a group exists only after an update that validated every `GroupKey`
 item, and every stored key has one value per GROUP BY part). -/
@@ -174,6 +188,179 @@ theorem step_never_panics (O : Oracles) (qy : Query) (idx : JoinIndex) (w : Bool
 theorem step_keeps_invariant (O : Oracles) (qy : Query) (idx : JoinIndex) (w : Bool) (es es' : EngineState) (l : Line)
     (lo : LineOut) (h : Sqlgrep.NoPanicEngine.EInv qy es) (hx : executeLine O qy idx w es l = .ok (es', lo)) :
     Sqlgrep.NoPanicEngine.EInv qy es' := Sqlgrep.NoPanicEngine.executeLine_inv hx h
+
+/-! ### never skipped: when the model needs an external fact, and when it does not -/
+
+/-- **exactly where the evaluator model stops for a missing fact.** A function call answers `oracleMissing w` iff it is
+one of four sites (`MissingSite`, `Lemmas/NoSkip.lean`): `upper(s)` / `lower(s)` of a text that is not ASCII and whose
+case mapping is not in the shipped table (`w = "upper"` / `"lower"`), `regexp_matches(v, p)` on a pair that is not in
+the shipped table (`w = "regex"`), and `now()` — ALWAYS (`w = "now"`: the model has no clock, so a statement that
+evaluates `now()` is always skipped by the model; such statements are compared with the implementation by the harness
+only up to the point of the call). No other function, no operator, no cast and no literal ever asks
+(`eval_not_skipped`, `parse_literal_needs_no_oracle`). -/
+theorem function_call_skipped_iff (O : Oracles) (f : Func) (args : List Value) (w : String) :
+    callFunction O f args = .oracleMissing w ↔ MissingSite O f args w :=
+  callFunction_missing_iff O f args w
+
+/-- the same, read for one function: `upper(s)` is skipped iff `s` is not ASCII and its upper-casing was not shipped -/
+theorem upper_skipped_iff (O : Oracles) (s : Bytes) :
+    (∃ w, callFunction O .upper [.text s] = .oracleMissing w) ↔ isAscii s = false ∧ lookupB O.upper s = none := by
+  rw [← upper_missing_iff]
+  cases callFunction O .upper [.text s] <;> simp [Outcome.isMissing]
+
+theorem lower_skipped_iff (O : Oracles) (s : Bytes) :
+    (∃ w, callFunction O .lower [.text s] = .oracleMissing w) ↔ isAscii s = false ∧ lookupB O.lower s = none := by
+  rw [← lower_missing_iff]
+  cases callFunction O .lower [.text s] <;> simp [Outcome.isMissing]
+
+theorem regex_skipped_iff (O : Oracles) (v p : Bytes) :
+    (∃ w, callFunction O .regexMatches [.text v, .text p] = .oracleMissing w) ↔
+      O.regex.find? (fun e => e.1.1 == v && e.1.2 == p) = none := by
+  rw [← regex_missing_iff]
+  cases callFunction O .regexMatches [.text v, .text p] <;> simp [Outcome.isMissing]
+
+/-- `now()` is skipped whatever was shipped -/
+theorem now_is_always_skipped (O : Oracles) : callFunction O .now [] = .oracleMissing "now" := rfl
+
+/-- **the evaluator asks only through function calls** (generic layer). Let `ok` be any set of function symbols whose
+calls are answered under the oracle tables `O` (no call of such a function is `oracleMissing`, whatever the arguments).
+An expression in which only such functions occur — at any depth: operands, IN lists, CASE branches, subscripts, casts,
+arguments — is evaluated to a value, a reported error (or, vacuously, a panic: `eval_never_panics`), never to a request
+for a fact, in every environment. -/
+theorem eval_not_skipped (O : Oracles) (ok : Func → Bool)
+    (hok : ∀ f, ok f = true → ∀ args w, callFunction O f args ≠ .oracleMissing w)
+    (env : Env) (e : Expr) (h : e.allFuncs ok = true) : ∀ w, eval O env e ≠ .oracleMissing w :=
+  (NM_iff _).1 (NM_eval O ok (fun f hf args => (NM_iff _).2 (hok f hf args)) env e h)
+
+/-- **the syntactic instance**: an expression that calls none of `upper`, `lower`, `regexp_matches`, `now` needs no
+external fact — for ALL oracle tables (empty, partial, wrong) -/
+theorem eval_factFree_not_skipped (O : Oracles) (env : Env) (e : Expr) (h : e.factFree = true) :
+    ∀ w, eval O env e ≠ .oracleMissing w :=
+  (NM_iff _).1 (NM_eval_factFree O env e h)
+
+/-- **a whole batch run is not skipped** (generic layer): if every function symbol of the statement is answered under
+`O`, the run of `Model/Exec.lean` — every input file, every joined file, every interrupt point — does not end `skipped`.
+Covers every statement form of the engine model (SELECT and aggregate statements, WHERE, GROUP BY, HAVING, the
+expressions around aggregates, DISTINCT, LIMIT, JOIN / OUTER JOIN): nothing is left out, hence no `_partial`. -/
+theorem run_not_skipped_of_answered (O : Oracles) (ok : Func → Bool)
+    (hok : ∀ f, ok f = true → ∀ args w, callFunction O f args ≠ .oracleMissing w)
+    (qy : Query) (hq : qy.stmt.allFuncs ok = true) (joined : List FileLine) (files : List (List FileLine))
+    (stopAt : Option Nat) : (runBatch O qy joined files stopAt).skipped = none :=
+  NoSkipEngine.runBatch_not_skipped O ok (fun f hf args => (NM_iff _).2 (hok f hf args)) qy joined files stopAt hq
+
+/-- **a fact-free statement is never skipped**: when no expression of the statement — select items, WHERE, GROUP BY
+parts, aggregate arguments, the expressions around aggregates, HAVING and its aggregates — calls `upper`, `lower`,
+`regexp_matches` or `now` (`Query.factFree`, a decidable syntactic check), a batch run does not end `skipped`, for ALL
+oracle tables, inputs and interrupt points -/
+theorem run_not_skipped (O : Oracles) (qy : Query) (hq : qy.factFree = true) (joined : List FileLine)
+    (files : List (List FileLine)) (stopAt : Option Nat) : (runBatch O qy joined files stopAt).skipped = none :=
+  NoSkipEngine.runBatch_not_skipped O factFreeFunc (NM_callFunction_factFree O) qy joined files stopAt hq
+
+/-- line-at-a-time execution (follow mode) of a fact-free statement: no step asks for a fact -/
+theorem step_not_skipped (O : Oracles) (qy : Query) (hq : qy.factFree = true) (idx : JoinIndex) (w : Bool)
+    (es : EngineState) (l : Line) : ∀ what, executeLine O qy idx w es l ≠ .oracleMissing what :=
+  (NM_iff _).1 (NoSkipEngine.NM_executeLine O factFreeFunc (NM_callFunction_factFree O) qy idx w es l hq)
+
+/-- how a run ended, read off the three failure fields of `RunOut` in the order `Pipeline.runLowered` reads them -/
+inductive Ending where
+  /-- `Ok(())`: all records printed -/
+  | output
+  /-- `Err(kind)`: a reported error, after the records printed so far -/
+  | reported (k : ErrKind)
+  | panicked
+  /-- the model was not given an external fact it needed -/
+  | skipped (what : String)
+  deriving DecidableEq, Repr
+
+def ending (r : RunOut) : Ending :=
+  match r.skipped with
+  | some w => .skipped w
+  | none => if r.panicked then .panicked else
+    match r.error with
+    | some k => .reported k
+    | none => .output
+
+/-- **every run ends in at most one way**: no batch run sets two of `error`, `panicked`, `skipped` (so `ending` loses
+nothing) — for every statement and all oracle tables -/
+theorem run_ends_one_way (O : Oracles) (qy : Query) (joined : List FileLine) (files : List (List FileLine))
+    (stopAt : Option Nat) :
+    let r := runBatch O qy joined files stopAt
+    (r.error = none ∧ r.panicked = false ∧ r.skipped = none) ∨
+    ((∃ k, r.error = some k) ∧ r.panicked = false ∧ r.skipped = none) ∨
+    (r.error = none ∧ r.panicked = true ∧ r.skipped = none) ∨
+    (r.error = none ∧ r.panicked = false ∧ ∃ w, r.skipped = some w) :=
+  NoSkipEngine.runBatch_oneWay O qy joined files stopAt
+
+/-- **the property sentence, for the engine and executor model: results or an error message, never a crash.** A batch
+run of a fact-free statement has `panicked = false` and `skipped = none`, and ends in exactly one of two ways: `Ok`
+(`error = none`: the printed records are the whole output) or a reported error (`error = some k`, after the records
+printed so far). For statements that are not fact-free the first conjunct still holds (`run_never_panics`) and
+`run_ends_one_way` says the run is then skipped INSTEAD OF ending in one of the two ways, never in addition. -/
+theorem run_trichotomy (O : Oracles) (qy : Query) (hq : qy.factFree = true) (joined : List FileLine)
+    (files : List (List FileLine)) (stopAt : Option Nat) :
+    let r := runBatch O qy joined files stopAt
+    r.panicked = false ∧ r.skipped = none ∧
+      ((r.error = none ∧ ending r = .output) ∨ (∃ k, r.error = some k ∧ ending r = .reported k)) := by
+  intro r
+  have hp : r.panicked = false := run_never_panics O qy joined files stopAt
+  have hs : r.skipped = none := run_not_skipped O qy hq joined files stopAt
+  refine ⟨hp, hs, ?_⟩
+  unfold ending
+  rw [hs, hp]
+  cases he : r.error with
+  | none => exact Or.inl ⟨rfl, rfl⟩
+  | some k => exact Or.inr ⟨k, rfl, rfl⟩
+
+/-- `SELECT b FROM t WHERE a > 1` (lowered by hand; the same statement from its text: `Props/C09Pipeline.lean`) -/
+def exSelect : Query :=
+  { stmt := .select { projections := [("b", .column "b")], wildcard := false,
+                      filter := some (.compare .gt (.column "a") (.value (.int 1))), limit := none, distinct := false }
+    table := { name := "t", columns := ["a", "b"] }, join := none }
+
+/-- `SELECT k, MAX(abs(v)) + 1 FROM t WHERE v IN (1, 2) GROUP BY k HAVING COUNT(*) > 0` -/
+def exAggregate : Query :=
+  { stmt := .aggregate
+      { items := [{ name := "k", kind := .groupKey (.column "k") "k", transform := none },
+                  { name := "max1", kind := .max (.call .abs [.column "v"]),
+                    transform := some (.arith .add (.scoped .aggValue "$value") (.value (.int 1))) }]
+        filter := some (.inList false (.column "v") [.value (.int 1), .value (.int 2)])
+        groupBy := some [(.column "k", "k")]
+        having := some (.compare .gt (.groupValueRef 0) (.value (.int 0)))
+        havingAggs := [(0, .count none false)], havingKeys := [], havingVisit := [.agg 0 (.count none false)]
+        limit := none, distinct := false }
+    table := { name := "t", columns := ["k", "v"] }, join := none }
+
+/-- `SELECT CASE WHEN a > 1 THEN upper(b) ELSE b END FROM t`: not fact-free (the call sits inside a CASE branch) -/
+def exUpper : Query :=
+  { exSelect with stmt := .select { projections := [("p0", .case [(.compare .gt (.column "a") (.value (.int 1)), .call .upper [.column "b"])] (.column "b"))],
+                                     wildcard := false, filter := none, limit := none, distinct := false } }
+
+/-- `SELECT now() FROM t` -/
+def exNow : Query :=
+  { exSelect with stmt := .select { projections := [("p0", .call .now [])], wildcard := false, filter := none,
+                                     limit := none, distinct := false } }
+
+example : exSelect.factFree = true := by decide
+example : exAggregate.factFree = true := by decide
+example : exUpper.factFree = false := by decide
+example : exNow.factFree = false := by decide
+
+/-- the hypothesis of `run_trichotomy` holds and both endings occur: records … -/
+example : ending (runBatch {} exSelect [] [[{ readable := true, line := { text := [], row := [.int 2, .text [120]] } }]] none) = .output := by
+  decide +kernel
+/-- … or a reported error (`'x' > 1` is a type error) -/
+example : ending (runBatch {} exSelect [] [[{ readable := true, line := { text := [], row := [.text [120], .text [120]] } }]] none) = .reported .typeError := by
+  decide +kernel
+/-- a statement that evaluates `now()` is skipped by the model, whatever facts are shipped … -/
+example : ending (runBatch {} exNow [] [[{ readable := true, line := { text := [], row := [.int 2, .text [120]] } }]] none) = .skipped "now" := by
+  decide +kernel
+/-- … `upper` of an ASCII text needs no fact, of a non-ASCII text (`é`) it needs the shipped mapping -/
+example : ending (runBatch {} exUpper [] [[{ readable := true, line := { text := [], row := [.int 2, .text [120]] } }]] none) = .output := by
+  decide +kernel
+example : ending (runBatch {} exUpper [] [[{ readable := true, line := { text := [], row := [.int 2, .text [195, 169]] } }]] none) = .skipped "upper" := by
+  decide +kernel
+example : ending (runBatch { upper := [([195, 169], [195, 137])] } exUpper [] [[{ readable := true, line := { text := [], row := [.int 2, .text [195, 169]] } }]] none) = .output := by
+  decide +kernel
 
 /-! ### `row[index]` sites
 
